@@ -183,6 +183,8 @@ def run_roundtrip(doc, opts, enc, walker, prior=None, namespace=True):
 def check_case(case):
     if case.get("kind") == "chars":
         return check_chars(case)
+    if case.get("kind") == "family":
+        return check_family(case)
     doc, opts, enc, walker = case["doc"], dict(case["opts"]), case.get("encoding"), case.get("walker", "etree")
     want = G.flat(doc)
     if enc and unencodable_comment(doc, enc):
@@ -243,6 +245,9 @@ def check_case(case):
 
 
 def shrink_extra(case, fails):
+    if "doc" not in case:
+        return case
+
     def f(doc):
         c = dict(case)
         c["doc"] = doc
@@ -262,6 +267,35 @@ def shrink_extra(case, fails):
         if fails(c2):
             c = c2
     return c
+
+
+def check_family(case):
+    """Hand-written conforming documents (vf.gen.conforming.family_documents: one or more per optional-tag rule and per document-level
+    rule) -> tree -> serializer -> parse: the same tree.  Documents with pre/textarea content starting with a newline are left to the
+    generated shard, where the recorded finding about them is modelled."""
+    from html5lib.serializer import HTMLSerializer
+    markup, walker, opts = case["markup"], case.get("walker", "etree"), dict(case.get("opts") or {})
+    tree, p = h5.parse(markup, builder=walker, full_tree=True)
+    if p.errors:
+        return Verdict("excluded", finding="family markup is not error-free on this tree")
+    want = obs.clarkify(obs.flat(tree))
+    try:
+        out = HTMLSerializer(inject_meta_charset=False, **opts).render(h5.walk(tree, walker))
+        back, _ = h5.parse(out, builder=walker, full_tree=True)
+    except Exception as e:
+        return Verdict("fail", "%s: %s (opts %s walker %s) on %s" % (type(e).__name__, short(str(e), 100), opts, walker, short(markup, 200)), "exception:" + type(e).__name__, nontrivial=True)
+    got = obs.clarkify(obs.flat(back))
+    if opts.get("alphabetical_attributes"):
+        want, got = _sorted_attrs(want), _sorted_attrs(got)
+    if got != want:
+        d = obs.first_diff(want, got)
+        return Verdict("fail", "conforming document does not survive serialize -> parse: record %d: tree %s, re-parsed %s; opts %s walker %s\nmarkup %s\noutput %s"
+                       % (d[0], short(d[1], 140), short(d[2], 140), opts, walker, short(markup, 300), short(out, 300)), "family-roundtrip", nontrivial=True)
+    return Verdict("pass", nontrivial=bool(opts.get("omit_optional_tags")), sig=sig64("family", markup, sorted(opts.items()), walker), classes=["family"])
+
+
+FAMILY_OPTS = [{"omit_optional_tags": True}, {"omit_optional_tags": True, "quote_attr_values": "always", "alphabetical_attributes": True}, {"omit_optional_tags": False, "use_trailing_solidus": True},
+               {"omit_optional_tags": True, "quote_attr_values": "spec", "minimize_boolean_attributes": False, "quote_char": "'"}]
 
 
 CHAR_BLOCK = 127      # prime to 0x400 and never aligned with a U+xDC00 boundary: neighbouring code points stay neighbours in one run
@@ -317,13 +351,20 @@ def run_chars(acc, part, of, encodings, pid="C07"):
 
 def shards(tier):
     quick = tier == "quick"
-    return [{"kind": "hyp", "n": 2500 if quick else 30000, "size": 40 if quick else 200} for _ in range(16)] + [{"kind": "chars", "part": i, "of": 2} for i in range(2)]
+    return [{"kind": "hyp", "n": 2500 if quick else 30000, "size": 40 if quick else 200} for _ in range(16)] + [{"kind": "chars", "part": i, "of": 2} for i in range(2)] + [{"kind": "family"}]
 
 
 def run_shard(desc, seed, tier):
     acc = Acc()
     if desc["kind"] == "chars":
         run_chars(acc, desc["part"], desc["of"], CHAR_ENCODINGS)
+        return acc
+    if desc["kind"] == "family":
+        for k, markup in enumerate(G.family_documents()):
+            if "<pre>\n" in markup or "<textarea>\n" in markup:
+                continue
+            case = {"kind": "family", "markup": markup, "walker": "dom" if k % 3 == 0 else "etree", "opts": FAMILY_OPTS[k % len(FAMILY_OPTS)]}
+            acc.add(case, check_case(case), sample={"markup": short(markup, 200), "opts": case["opts"]})
         return acc
     strat = st.tuples(sized_binary(20, 60 + desc["size"] * 6), st.binary(min_size=13, max_size=13))
 
